@@ -12,7 +12,9 @@ package main
 //
 // Rule (typed AST): in package query a function (other than the clean-up itself) that changes a
 // NumberConditionSummand.Factor by arithmetic (++, --, +=, -=) contains an if whose condition compares such a Factor
-// with 0 and whose body shortens a Summands slice.
+// with 0 and whose body shortens a Summands slice — as a direct statement of a loop body, with no `continue` in front of
+// it: the test is applied to every summand, not only to the one that was just changed (seeded C14e and C14m removed
+// zero summands of the filter's own variable only; `id:@id@+@x:id@-@x:id@` then panicked).
 
 import (
 	"go/ast"
@@ -22,7 +24,7 @@ import (
 
 func init() {
 	register("C14",
-		"C14-m (typed AST): in package query a function other than cleanNumberConditions that changes a NumberConditionSummand.Factor by arithmetic (++, --, +=, -=) contains an if whose condition compares such a Factor with 0 and whose body shortens a Summands slice: a summand that cancels out is removed where it is made. The clean-up takes the first summand's factor as the common divisor and computes `f % commonFactor`; a zero factor that reaches it makes Parse panic with an integer divide by zero (`id:@id@`).",
+		"C14-m (typed AST): in package query a function other than cleanNumberConditions that changes a NumberConditionSummand.Factor by arithmetic (++, --, +=, -=) contains an if whose condition compares such a Factor with 0 and whose body shortens a Summands slice, placed directly in a loop body with no `continue` in front of it (it is applied to every summand): a summand that cancels out is removed where it is made. The clean-up takes the first summand's factor as the common divisor and computes `f % commonFactor`; a zero factor that reaches it makes Parse panic with an integer divide by zero (`id:@id@`).",
 		func(p *Prog, r *Res) {
 			const rule = "C14-m cancelled-summand-removed-where-it-is-made"
 			r.Rule(rule + ": arithmetic on a summand's factor is accompanied by the removal of zero summands")
@@ -61,9 +63,45 @@ func init() {
 				}
 				n++
 				removes := false
-				ast.Inspect(f.Body(), func(x ast.Node) bool {
+				inspectParents(f.Body(), func(x ast.Node, ps []ast.Node) bool {
 					ifs, ok := x.(*ast.IfStmt)
 					if !ok {
+						return true
+					}
+					// the test is applied to EVERY summand: it is a direct statement of the body of a loop, and no
+					// statement in front of it in that body can `continue` past it
+					everySummand := false
+					if len(ps) >= 2 {
+						if blk, ok := ps[len(ps)-1].(*ast.BlockStmt); ok {
+							isLoopBody := false
+							switch l := ps[len(ps)-2].(type) {
+							case *ast.ForStmt:
+								isLoopBody = l.Body == blk
+							case *ast.RangeStmt:
+								isLoopBody = l.Body == blk
+							}
+							if isLoopBody {
+								everySummand = true
+								for _, st := range blk.List {
+									if st == ast.Stmt(ifs) {
+										break
+									}
+									ast.Inspect(st, func(y ast.Node) bool {
+										switch b := y.(type) {
+										case *ast.FuncLit, *ast.ForStmt, *ast.RangeStmt:
+											return false
+										case *ast.BranchStmt:
+											if b.Tok == token.CONTINUE {
+												everySummand = false
+											}
+										}
+										return true
+									})
+								}
+							}
+						}
+					}
+					if !everySummand {
 						return true
 					}
 					zeroTest := false
